@@ -44,6 +44,13 @@ pub mod vvec;
 /// selected through the VCOLL_CAP environment variable at compile time (default 4).
 pub const CAP: usize = parse_cap(option_env!("VCOLL_CAP"));
 
+pub const fn parse_vcap(s: Option<&str>) -> usize {
+    match s {
+        None => 2 * CAP,
+        Some(_) => parse_cap(s),
+    }
+}
+
 const fn parse_cap(s: Option<&str>) -> usize {
     match s {
         None => 4,
